@@ -753,7 +753,7 @@ func init() {
 	register(&CheckDef{
 		ID:    "C19",
 		Title: "Redis-style data structures behave like their abstract types and survive restart",
-		Reach: []string{"done", "expired", "restarted", "popped"},
+		Reach: []string{"done", "expired", "restarted", "popped", "merged"},
 		Jobs: func(tier string) []JobSpec {
 			var js []JobSpec
 			add := func(name string, params map[string]int64) {
@@ -765,6 +765,7 @@ func init() {
 				add("list-restart-k4", p("k", 4, "keys", 1, "cmds", cLPush|cLPop|cDel|cRestart))
 				add("zset-btree-k3", p("k", 3, "keys", 1, "cmds", cZAdd|cZScore|cDel, "index", 1, "nscores", 2))
 				add("set-type-k3", p("k", 3, "keys", 1, "cmds", cSAdd|cSRem|cSIsMember|cDel|cType|cSet))
+				add("all-types-merge-restart-k3", p("k", 3, "keys", 1, "cmds", cSet|cGet|cHSet|cHGet|cSAdd|cSIsMember|cLPush|cLPop|cZAdd|cZScore|cRestart, "mergerestart", 1, "nscores", 1))
 				// empty values and the empty field/member name are values/names like any other
 				add("hash-empty-values-k3", p("k", 3, "keys", 1, "cmds", cHSet|cHGet|cHDel, "vlen0", 1, "elen0", 1))
 				add("string-list-empty-values-k3", p("k", 3, "keys", 1, "cmds", cSet|cGet|cLPush|cLPop|cDel, "vlen0", 1))
